@@ -349,6 +349,7 @@ impl Ctx {
     /// Used where coverage of every stratum of a small parameter range matters more than random draws; no shrinking (the cases
     /// are already minimal descriptions). Returns true when no violation was found.
     pub fn sweep<C: Serialize + Sync>(&self, sub: &str, cases: &[C], threads: usize, eval: impl Fn(&C) -> Eval + Sync) -> bool {
+        let t_sub = Instant::now();
         let next = std::sync::atomic::AtomicUsize::new(0);
         let first_fail: Mutex<Option<(usize, String)>> = Mutex::new(None);
         let started: Vec<Mutex<Option<Instant>>> = (0..threads).map(|_| Mutex::new(None)).collect();
@@ -395,6 +396,7 @@ impl Ctx {
                 });
             }
         });
+        self.note(&format!("wall_s.{}", sub), serde_json::json!((t_sub.elapsed().as_secs_f64() * 10.0).round() / 10.0));
         if let Some((i, reason)) = first_fail.into_inner().unwrap() {
             self.violation(sub, &cases[i], &reason);
             return false;
@@ -416,6 +418,7 @@ impl Ctx {
         S: Strategy<Value = V>,
         V: Serialize + std::fmt::Debug + Clone + Send,
     {
+        let t_sub = Instant::now();
         let shards = shards.max(1).min(cases_total.max(1));
         let per = (cases_total + shards - 1) / shards;
         let results: Mutex<Vec<(u32, V, String)>> = Mutex::new(vec![]);
@@ -524,6 +527,7 @@ impl Ctx {
         if let Err(p) = scope_res {
             self.infra(format!("{} {}: a generator thread panicked: {}", self.id, sub, p));
         }
+        self.note(&format!("wall_s.{}", sub), serde_json::json!((t_sub.elapsed().as_secs_f64() * 10.0).round() / 10.0));
         let mut res = results.into_inner().unwrap();
         res.sort_by_key(|r| r.0);
         if let Some((_, value, reason)) = res.into_iter().next() {
